@@ -15,7 +15,6 @@ import (
 	"sort"
 	"strings"
 
-
 	"verif/internal/fw"
 	"verif/internal/gen"
 	"verif/internal/wr"
@@ -32,7 +31,6 @@ type input struct {
 // stallLimit: number of consecutive page-loop iterations with an identical state that is taken as
 // "the layout does not progress".
 const stallLimit = wr.StallLimit
-
 
 func counts(tier string) (docs, skips int) {
 	if tier == "thorough" {
@@ -66,7 +64,7 @@ func init() {
 			return 2000
 		},
 		CounterFloors: func(tier string) map[string]int64 {
-			return map[string]int64{"docs_multi_page": 300, "pages": 5000, "draw_text_events": 10000, "skip_pairs_checked": 300, "engine_gotext": 100}
+			return map[string]int64{"docs_multi_page": 300, "pages": 5000, "draw_text_events": 10000, "skip_pairs_checked": 300, "engine_gotext": 100, "docs_degenerate-floats": 150, "docs_quote-stress": 150}
 		},
 		Assumptions: []string{
 			"termination is decided as bounded progress: CPU budget of 120 s per bounded document (>= 40x the worst legitimate cost seen) and no " + fmt.Sprint(stallLimit) + " consecutive identical page-loop states; an unbounded 'eventually' is out of reach of runtime monitoring",
@@ -80,6 +78,11 @@ var tokRe = regexp.MustCompile(`w[0-9]+z`)
 
 // render runs one document with the page-loop progress monitor of wr.Render.
 func render(d gen.Doc, res *fw.Result) (r *wr.Rendered, stalled string, err error) {
+	for _, fam := range []string{"degenerate-floats", "quote-stress"} {
+		if strings.Contains(d.HTML, "<!--gen:"+fam+"-->") {
+			res.Count("docs_"+fam, 1)
+		}
+	}
 	r, err = wr.Render(wr.Opts{HTML: d.HTML, UserCSS: d.UserCSS, Hints: d.Hints, Engine: d.Engine, Zoom: d.Zoom, Files: d.Files})
 	res.Count("page_loop_iterations", int64(wr.PageLoopIterations))
 	if s, ok := err.(*wr.StallError); ok {
